@@ -2,8 +2,8 @@ import BarterModel.Driver.Common
 import BarterModel.Model.Orders
 /-!
 Line-protocol driver for C01. Ops:
-  `init n` | `open i c q p` | `cancel i c` | `snap i c q p K a b d` | `resp i c ok|err`
-  | `full (i c q p K a b d)*`
+  `init n` | `init n x` | `open i c q p` | `cancel i c` | `snap i c q p K a b d` | `resp i c ok|err` | `resp i c err k`
+  | `full (i c q p K a b d)*` | `empty i*` | `attr side kind tif strategy cancelid`
 state encoding `K a b d`: `F 0 0 0` in-flight echo, `O id t filled` open, `C0 0 0 0` / `C1 id t filled`
 hand-built cancel-in-flight marker, `X kind 0 0` inactive (kind 0 cancelled 1 fully-filled 2 failed 3 expired).
 -/
@@ -42,7 +42,7 @@ def parseState : List String → Option OState
     | _, _, _ => none
   | ["X", "0", _, _] => some (.inactive .cancelled)
   | ["X", "1", _, _] => some (.inactive .fullyFilled)
-  | ["X", "2", _, _] => some (.inactive .openFailed)
+  | ["X", "2", k, _] => if (k.toNat?).any (· < 10) then some (.inactive .openFailed) else none
   | ["X", "3", _, _] => some (.inactive .expired)
   | _ => none
 
@@ -61,6 +61,18 @@ def parseFull : List String → Option (List (Nat × Snap))
     | _, _ => none
   | _ => none
 
+/-- `attr <side> <kind> <time in force> <strategy> <cancel by order id>`: the static attributes the
+harness gives to the requests / reports that follow. Nothing in the tracking code, the model or the
+property depends on them: validated, otherwise ignored. -/
+def attrOk : List String → Bool
+  | [s, k, t, g, ci] =>
+    ["B", "S"].contains s && ["M", "L"].contains k && ["G0", "G1", "D", "F", "I"].contains t
+      && ["a", "b"].contains g && ["n", "s"].contains ci
+  | _ => false
+
+/-- `empty i*`: an account snapshot naming instruments `i*` with no orders; `none` for malformed -/
+def parseEmpty (toks : List String) : Option (List Nat) := toks.mapM (·.toNat?)
+
 /-- `some (ops routed)` or `none` for malformed -/
 def parseOps (toks : List String) : Option (List (Nat × Op)) :=
   match toks with
@@ -75,6 +87,12 @@ def parseOps (toks : List String) : Option (List (Nat × Op)) :=
   | ["resp", i, c, r] =>
     match i.toNat?, c.toNat?, (if r == "ok" then some true else if r == "err" then some false else none) with
     | some i, some c, some ok => some [(i, .cancelResp c ok)]
+    | _, _, _ => none
+  -- the error kind of a failed cancel (0..9, harness `order_error`) is not part of the model: a failed
+  -- cancel is a failed cancel
+  | ["resp", i, c, "err", k] =>
+    match i.toNat?, c.toNat?, k.toNat? with
+    | some i, some c, some k => if k < 10 then some [(i, .cancelResp c false)] else none
     | _, _, _ => none
   | "snap" :: rest => (parseSnap rest).map fun (i, s) => [(i, .snapshot s)]
   | "full" :: rest => (parseFull rest).map fun l => l.map fun (i, s) => (i, .snapshot s)
@@ -112,6 +130,17 @@ def model : Drv Engine where
       match n.toNat? with
       | some n => let e' : Engine := List.replicate n []; (e', obs e')
       | none => (e, ["bad-op"])
+    -- `init n x`: the n instruments are spread over x exchanges (1..5); orders are tracked per instrument
+    | ["init", n, x] =>
+      match n.toNat?, x.toNat? with
+      | some n, some x =>
+        if 1 ≤ x && x ≤ 5 then let e' : Engine := List.replicate n []; (e', obs e') else (e, ["bad-op"])
+      | _, _ => (e, ["bad-op"])
+    | "attr" :: rest => if attrOk rest then (e, obs e) else (e, ["bad-op"])
+    | "empty" :: rest =>
+      match parseEmpty rest with
+      | none => (e, ["bad-op"])
+      | some ls => if ls.all (· < e.length) then (e, obs e) else (e, ["panic"])
     | _ =>
       match parseOps toks with
       | none => (e, ["bad-op"])
@@ -241,6 +270,21 @@ def spec : Drv SpecSt where
       match n.toNat? with
       | some n => let s' : SpecSt := ⟨List.replicate n [], List.replicate n [], false⟩; (s', specObs s')
       | none => (s, ["bad-op"])
+    -- the property is per client order id and instrument, whatever exchange the instrument is on
+    | ["init", n, x] =>
+      match n.toNat?, x.toNat? with
+      | some n, some x =>
+        if 1 ≤ x && x ≤ 5 then
+          let s' : SpecSt := ⟨List.replicate n [], List.replicate n [], false⟩; (s', specObs s')
+        else (s, ["bad-op"])
+      | _, _ => (s, ["bad-op"])
+    -- static attributes: the property does not mention them, every clause holds whatever they are
+    | "attr" :: rest => if attrOk rest then (s, specObs s) else (s, ["bad-op"])
+    -- a snapshot that reports no order says nothing about any order
+    | "empty" :: rest =>
+      match parseEmpty rest with
+      | none => (s, ["bad-op"])
+      | some ls => if ls.all (· < s.tables.length) then (s, specObs s) else (s, ["panic"])
     | _ =>
       match parseOps toks with
       | none => (s, ["bad-op"])
